@@ -8,6 +8,8 @@ import (
 	"go/types"
 	"os"
 	"path/filepath"
+	"regexp"
+	"strconv"
 	"strings"
 
 	"golang.org/x/tools/go/packages"
@@ -31,6 +33,7 @@ type Program struct {
 	typeByID map[int]types.Type
 	// every trusted item actually used in this run
 	Trusted map[string]bool
+	assignScan map[string]bool
 }
 
 // Load loads the given package patterns of the repository (with all dependencies, from source).
@@ -378,4 +381,87 @@ func (p *Program) globalInit(g *ssa.Global) ast.Expr {
 		}
 	}
 	return nil
+}
+
+// neverAssigned scans the repository's non-test Go sources for anything that could change a package-level variable
+// after its initialisation: an assignment to the (qualified or unqualified) name, or taking its address. The scan is
+// textual and errs on the side of "assigned" (a local of the same name counts), so a positive answer is safe to rely on.
+func (p *Program) neverAssigned(g *ssa.Global) bool {
+	if p.assignScan == nil {
+		p.assignScan = map[string]bool{}
+	}
+	key := g.Pkg.Pkg.Path() + "." + g.Name()
+	if v, ok := p.assignScan[key]; ok {
+		return v
+	}
+	name := regexp.QuoteMeta(g.Name())
+	pkgName := regexp.QuoteMeta(g.Pkg.Pkg.Name())
+	pkgDir := ""
+	if pk := p.ByPath[g.Pkg.Pkg.Path()]; pk != nil && len(pk.GoFiles) > 0 {
+		pkgDir = filepath.Dir(pk.GoFiles[0])
+	}
+	qual := regexp.MustCompile(`(\b[A-Za-z_][A-Za-z0-9_]*\.` + name + `\s*(=[^=]|\+=|-=|\+\+|--))|(&\s*[A-Za-z_][A-Za-z0-9_]*\.` + name + `\b)`)
+	unq := regexp.MustCompile(`((^|[^.A-Za-z0-9_])` + name + `\s*(=[^=]|:=|\+=|-=|\+\+|--))|(&\s*` + name + `\b)`)
+	_ = pkgName
+	ok := true
+	filepath.Walk(p.Repo, func(path string, info os.FileInfo, err error) error {
+		if err != nil || !ok {
+			return nil
+		}
+		if info.IsDir() {
+			if n := info.Name(); n == ".git" || n == "vendor" || n == "testdata" {
+				return filepath.SkipDir
+			}
+			return nil
+		}
+		if !strings.HasSuffix(path, ".go") || strings.HasSuffix(path, "_test.go") {
+			return nil
+		}
+		b, err := os.ReadFile(path)
+		if err != nil {
+			ok = false
+			return nil
+		}
+		src := string(b)
+		if !strings.Contains(src, g.Name()) {
+			return nil
+		}
+		if qual.MatchString(src) {
+			ok = false
+			return nil
+		}
+		if filepath.Dir(path) == pkgDir {
+			// inside the declaring package: the declaration itself ("Name = value" inside a var block) is the one allowed match
+			n := len(unq.FindAllStringIndex(src, -1))
+			decl := regexp.MustCompile(`(?m)^\s*(var\s+)?` + name + `(\s+[A-Za-z_\[\]\*\.0-9]+)?\s*=[^=]`)
+			n -= len(decl.FindAllStringIndex(src, -1))
+			if n > 0 {
+				ok = false
+			}
+		}
+		return nil
+	})
+	p.assignScan[key] = ok
+	return ok
+}
+
+// globalStringConst: a package-level string variable initialised by a string literal and never assigned afterwards.
+func (p *Program) globalStringConst(g *ssa.Global) (string, bool) {
+	pt := g.Type().(*types.Pointer).Elem()
+	b, ok := pt.Underlying().(*types.Basic)
+	if !ok || b.Kind() != types.String {
+		return "", false
+	}
+	lit, ok := p.globalInit(g).(*ast.BasicLit)
+	if !ok || lit.Kind != token.STRING {
+		return "", false
+	}
+	s, err := strconv.Unquote(lit.Value)
+	if err != nil {
+		return "", false
+	}
+	if !p.neverAssigned(g) {
+		return "", false
+	}
+	return s, true
 }
